@@ -33,6 +33,8 @@ def check(case, ctx):
         return
     g = B.g
     tag = "Sg%d/%s" % (g.no, g.choice)
+    if GR.touch_sibling(g.no, g.choice):
+        ctx.event("sibling-setting-used-first")
     np.random.seed(case["npseed"])
     U4 = np.asarray(mod.genhkl_unique(B.cell, B.smin, B.smax, output_stl=True, **B.kw), float)
     U3 = np.asarray(mod.genhkl_unique(B.cell, B.smin, B.smax, **B.kw), float)
